@@ -100,7 +100,12 @@ def run_C02(rep, g):
     # derive(..) blocks: every written trait is derived (union of repeated blocks, if accepted at all)
     if g.d.get('split') and g.d['split'].get('derive'):
         rules.check_derived_cmp(rep, g)
-        rules.check_conversions(rep, g)
+    # "no rule is silently dropped" holds on every route into the type, not only in `new`/`try_new`: each conversion,
+    # `from_str` and `deserialize` must have the constructor's outcome table (round 13: `From<String>` written as
+    # `Self(raw_value)` dropped every sanitizer on that one route)
+    rules.check_conversions(rep, g)
+    rules.check_from_str(rep, g)
+    rules.check_deserialize(rep, g)
 
 
 def g_C02(tier):
